@@ -1,7 +1,44 @@
 """Toy bulk ciphers / AEAD mirrored in coq/Toy/C01_ToyCipher.v.  They are duck-typed
 replacements for ConnectionState.encContext (tlslite never checks the class), so the
 real RecordLayer.sendRecord/recvRecord run unchanged on top of them."""
-from toys import ToyMac
+TM_P = (1 << 61) - 1
+
+
+class ToyMac(object):
+    """Duck-typed hashlib/hmac object (copy/update/digest/digest_size/block_size) mirrored by
+    toy2_mac in coq/Toy/C01_ToyCipher.v: polynomial hash modulo 2^61-1."""
+
+    def __init__(self, key, digest_size, block_size=64, _st=None):
+        self.key = bytes(bytearray(key))
+        self.digest_size = digest_size
+        self.block_size = block_size
+        self.name = 'toy2-%d' % digest_size
+        if _st is None:
+            h = 1000003
+            for b in self.key:
+                h = (h * 257 + b + 1) % TM_P
+            base = h + 2
+            _st = (base, base % 65521 + 1)
+        self.base, self._h = _st
+
+    def copy(self):
+        return ToyMac(self.key, self.digest_size, self.block_size, (self.base, self._h))
+
+    def update(self, data):
+        h, base = self._h, self.base
+        for b in bytearray(data):
+            h = (h * base + b + 1) % TM_P
+        self._h = h
+
+    def digest(self):
+        out, h, n = bytearray(), self._h, self.digest_size
+        while n > 0:
+            for j in range(min(n, 7)):
+                out.append((h >> (8 * j)) & 255)
+            h = (h * self.base + 17) % TM_P
+            n -= 7
+        return bytes(out)
+
 
 
 def ts_step(h):
@@ -22,10 +59,11 @@ class ToyStream(object):
     name = 'toystream'
     implementation = 'toy'
 
-    def __init__(self, key):
-        h = 1
-        for b in bytearray(key):
-            h = ts_step(h + b)
+    def __init__(self, key, h=None):
+        if h is None:
+            h = 1
+            for b in bytearray(key):
+                h = ts_step(h + b)
         self.h = h
 
     def state(self):
